@@ -16,7 +16,7 @@ reg("C07", "exploration", "independent wire decoder (R3) vs the model carried by
     "DESIGN.md 3/C07")
 reg("C08", "exploration", "model-based history monitor: every live token and built block re-observed after every operation",
     "After each operation of a seeded history every live token is re-snapshotted (print, bytes, reload, ids, panel behaviour) and compared with its creation snapshot; new tokens and built blocks are decoded independently and compared with what their own caller put in.",
-    "Block builders are built once and appended to the token they were created from.",
+    "A built block is appended only to the token its builder was created from. Root and block builders are also used again after Build (fill, build, fill, build).",
     "DESIGN.md 3/C08")
 reg("C16", "exploration", "model + reference key selection, bounded-exhaustive over ids x histories x key maps x defaults",
     "All 6 identifiers x all legal derivation histories up to length 4 x 27 lookups per token are executed; the identifier of every derived token and the outcome of every lookup are compared with a reference selection function; one key source value is also reused across tokens with different identifiers.",
